@@ -283,6 +283,20 @@ def work(job):
             mats = [(random_matrix(case, rng), False) for _ in range(param // 4)]
     elif mode == 'sample':
         mats = [(random_matrix(case, rng), rng.random() < 0.05) for _ in range(param)]
+    elif mode == 'pingpong':
+        # dsts were built as [g_X, (g_Y, F_Y), (g_X, F_X), ..., g_X] oldest first (see plan): the own-destination
+        # cell of every second pull request of a pair fails; param = the non-SUCCESSFUL state used
+        bad = set(param[1])
+        mats = [({c: (param[0] if (c[0] in bad and c[1] == dsts[c[0] - 1]) else 'SUCCESSFUL')
+                  for c in case.cells}, False)]
+    elif mode == 'long':
+        # long queues over several merge paths where only "own destination" cells fail: the rejection of a pull
+        # request on one path uncovers a failed tip on another path, again and again (the selection needs as
+        # many rounds as there are alternations, not as many as there are paths)
+        for _ in range(param):
+            pfail = rng.choice([0.25, 0.4, 0.55])
+            mats.append(({c: ('FAILED' if (c[1] == dsts[c[0] - 1] and rng.random() < pfail) else 'SUCCESSFUL')
+                          for c in case.cells}, False))
     evaluate(case, mats, acc, kind)
     return acc
 
@@ -321,6 +335,40 @@ def plan(ctx):
     picked = rng.sample(range(len(four)), take)
     jobs += [(four[i][0], four[i][1], 'sample', per, seed) for i in sorted(picked)]
     note['four_pr_jobs'] = '%d of %d, %d matrices each' % (take, len(four), per)
+    # long queues (6-10 pull requests) entering at the lowest branches of cascades with several merge paths
+    multi = [sh for sh in cc.shapes() if sum(sh[1]) + (1 if sh[2] else 0) >= 1 and len(sh[0]) >= 2]
+    nlong = 240 if thorough else 64
+    for i in range(nlong):
+        sh = multi[rng.randrange(len(multi))]
+        names = cc.dest_names(sh)
+        entries = [n for n in names if n.startswith('stabilization/')] + \
+                  [n for n in names if n.startswith('development/')][:1] + \
+                  [n for n in names if n.startswith('hotfix/')]
+        d = tuple(rng.choice(entries) for _ in range(rng.randint(6, 10)))
+        jobs.append((sh, d, 'long', 16 if thorough else 8, seed))
+    note['long_queue_jobs'] = nlong
+    # ping-pong chains: a failed tip on one path, hidden behind a later green pull request of the same entry
+    # branch, is uncovered only when a failure on ANOTHER path removed that green one - k times in a row
+    npp = 0
+    for sh in multi:
+        names = cc.dest_names(sh)
+        entries = [n for n in names if n.startswith('stabilization/')] + \
+                  [n for n in names if n.startswith('development/')][:1]
+        for x in entries:
+            for y in entries:
+                if x == y:
+                    continue
+                for k in (2, 3, 4, 5):
+                    d, bad = [x], []
+                    for i in range(k):
+                        e = y if (k - i) % 2 == 1 else x          # newest pair is on the other entry, y
+                        d += [e, e]
+                        bad.append(len(d))                         # oldest first: g_e, then the failing F_e
+                    d.append(x)
+                    for state in ('FAILED', 'INPROGRESS'):
+                        jobs.append((sh, tuple(d), 'pingpong', (state, tuple(bad)), seed))
+                        npp += 1
+    note['pingpong_jobs'] = npp
     return jobs, note
 
 
